@@ -282,6 +282,7 @@ fn op_ranges(case: &Value, image: &[u8], env: &mut Env, out: &mut Obj) {
             rj.insert("addressable_len".into(), json!(addressable));
             rj.insert("in_image".into(), json!(start + want_len <= image.len() && addressable == want_len));
         }
+        env.capture_start();
         macro_rules! typed {
             ($t:ty) => {{
                 match env.run(sd.eeprom_read::<$t>(md, word)) {
@@ -320,6 +321,12 @@ fn op_ranges(case: &Value, image: &[u8], env: &mut Env, out: &mut Obj) {
                 rj.insert("result".into(), json!("unsupported"));
                 rj.insert("why".into(), json!("via must be raw or typed_u8/u16/u32/u64"));
             }
+        }
+        // the SII register traffic of this read (bounded)
+        let frames = env.capture_take();
+        if let Value::Array(mut a) = sii_log(&frames, env.seg.device(1).station_address()) {
+            a.truncate(400);
+            rj.insert("sii".into(), Value::Array(a));
         }
         reads.push(Value::Object(rj));
     }
